@@ -58,7 +58,7 @@ CHECKS = {
                         "no neighbor target is the literal string \"host\" (real targets are ip:port)"],
     },
     "C08": {
-        "suites": [{"suite": "catchup", "n_quick": 64, "n_thorough": 1200, "shards": 8, "shards_thorough": 16}],
+        "suites": [{"suite": "catchup", "n_quick": 96, "n_thorough": 1600, "shards": 8, "shards_thorough": 16}],
         "also_props": ["C20_wiring.v"],
         "monitor_props": ["C08"],
         "mismatch_kinds": ["update", "validate", "page"],
@@ -172,7 +172,9 @@ CHECKS = {
                         "a reward transaction's own yielding output is not subject to the registration test (the property speaks of ordinary transactions)"],
     },
     "C13": {
-        "suites": [{"suite": "faults", "n_quick": 160, "n_thorough": 1200, "shards": 8, "shards_thorough": 16}],
+        "suites": [{"suite": "faults", "n_quick": 160, "n_thorough": 1200, "shards": 8, "shards_thorough": 16},
+                   # several neighbors in one round: what a refused neighbor offered must not reach the chain through another candidate
+                   {"suite": "forks", "n_quick": 64, "n_thorough": 1600, "shards": 8, "shards_thorough": 16, "seed_off": 13}],
         "also_props": ["C20_wiring.v"],
         "monitor_props": ["C13"],
         "mismatch_kinds": ["update", "validate", "admit", "regsync"],
